@@ -226,7 +226,8 @@ CHECKS = {
              "pow, inverse, gcd, lcm, sqrt, modular sqrt and Jacobi symbol as relations certified by untrusted witnesses the recorder supplies; exceptions are part of the relation). Every operation "
              "of the Integer classes is recorded on all three back-ends over operand shape classes (signs, word-boundary sizes, 1 bit to 4096 bits, int/Integer operands, in-place forms) and judged "
              "by TLC; primality verdicts are judged against ground truth by construction (table primes; Carmichael numbers, strong and Lucas pseudoprimes, squares, close primes with factor witnesses), "
-             "Miller-Rabin rounds against exact certified rounds, generated primes for exact bit size. TLC is a reference evaluator here.",
+             "Miller-Rabin rounds against exact certified rounds, generated primes for exact bit size (and, when an independent test finds one composite, a Miller-Rabin round certified by TLC). "
+             "Crypto.Util.number (GCD, inverse, size, isPrime, getPrime from 2 bits on, getStrongPrime with p-1 coprime to e) is judged by the same relations. TLC is a reference evaluator here.",
         design_ref="DESIGN.md section 6, C14",
         note="Trusted: TLC; BigNat/BigInt (small identities and Python-int-produced products as ASSUMEs; a wrong witness can only make TLC refuse). Regions where the documentation is silent are named "
              "in BigInt.tla (shift counts >= 65536, pow without modulus with exponent > 256, modulus 1 for the raw C helpers: mont.c documents modulus >= 3).",
